@@ -468,6 +468,9 @@ def gen_cases(tier):
     for fmt in ("m", "v"):
         for p, seq in seeds(fmt):
             yield {"part": "corrupt", "fmt": fmt, "preamble": p, "sections": list(seq)}
+    for fmt in ("m", "v"):
+        for p, seq in seeds(fmt):
+            yield {"part": "file", "fmt": fmt, "preamble": p, "sections": list(seq)}
     for c in CLI_CORRUPTIONS:
         for k in range(len(CLI_COMMANDS)):
             if CLI_COMMANDS[k][0] in RULES_ONLY_COMMANDS and CLI_CORRUPTIONS[c][0] != "rules":
@@ -475,7 +478,44 @@ def gen_cases(tier):
             yield {"part": "cli", "corruption": c, "command": k}
 
 
+def check_file(case):
+    """The seed file written to disk in four encodings of the same text (LF / CRLF, with / without a UTF-8 byte-order mark) and read
+    through the file loaders must give the reading of the text itself."""
+    from pathlib import Path
+    fmt, p, seq = case["fmt"], case["preamble"], tuple(case["sections"])
+    exp = expected_reading(fmt, p, seq)
+    text = "\n".join(seed_lines(fmt, p, seq)) + "\n"
+    viol, evals = [], 0
+    for label, data in (("lf", text.encode("utf-8")), ("bom+lf", b"\xef\xbb\xbf" + text.encode("utf-8")),
+                        ("crlf", text.replace("\n", "\r\n").encode("utf-8")), ("bom+crlf", b"\xef\xbb\xbf" + text.replace("\n", "\r\n").encode("utf-8"))):
+        evals += 1
+        path = R.write_scratch("c17file.rules", "")
+        with open(path, "wb") as f:
+            f.write(data)
+        try:
+            if fmt == "m":
+                from tally.merchant_engine import load_merchants_file
+                eng = load_merchants_file(Path(path))
+                got = ("ok", {"variables": dict(eng.variables), "transforms": [tuple(t) for t in eng.transforms],
+                              "rules": [{"name": r.name, "match": r.match_expr, "category": r.category, "subcategory": r.subcategory, "merchant": r.merchant,
+                                         "tags": sorted(r.tags), "priority": r.priority, "let": [tuple(x) for x in r.let_bindings], "field": dict(r.fields)}
+                                        for r in eng.rules]})
+            else:
+                from tally.section_engine import load_sections
+                cfg = load_sections(path)
+                got = ("ok", {"variables": dict(cfg.global_variables),
+                              "sections": [{"name": x.name, "filter": x.filter_expr, "description": x.description, "variables": dict(x.variables)} for x in cfg.sections]})
+        except Exception as e:  # noqa
+            got = ("error", f"{type(e).__name__}: {e}")
+        if got != ("ok", exp):
+            viol.append({"kind": "file-encoding-changes-reading", "detail": {"encoding": label, "expected": exp, "got": got}})
+    return {"evals": evals, "nontrivial": evals, "violations": viol[:4], "outcomes": ["file-ok" if not viol else "file-differs"],
+            "sample_repr": {"fmt": fmt, "sections": list(seq)}}
+
+
 def check_case(case):
+    if case["part"] == "file":
+        return check_file(case)
     if case["part"] == "layout":
         return check_layout(case)
     if case["part"] == "corrupt":
